@@ -50,6 +50,9 @@ type c11Scenario struct {
 	// the default host); EchoCert: under TLS it uses (and reports) the certificate it was offered
 	Host     string `json:"host,omitempty"`
 	EchoCert bool   `json:"echo_cert,omitempty"`
+	// Order: the order in which the cases of the batch are handed to the runner ("" = by name, "rev", "rot");
+	// a real batch comes out of a map, in any order
+	Order string `json:"order,omitempty"`
 	// SlowErr: the runner's own stderr takes this many (virtual) seconds per line it is given
 	SlowErr int `json:"slow_err,omitempty"`
 }
@@ -597,9 +600,18 @@ func c11RunOne(t *testing.T, sc c11Scenario, prefix []int, expect []gate.PointRe
 			if sc.ClientCerts {
 				clientCreds = &conformancev1.TLSCreds{Cert: []byte("client-cert"), Key: []byte("client-key")}
 			}
+			batch := append([]*conformancev1.TestCase(nil), cases...)
+			switch sc.Order {
+			case "rev":
+				for i, j := 0, len(batch)-1; i < j; i, j = i+1, j-1 {
+					batch[i], batch[j] = batch[j], batch[i]
+				}
+			case "rot":
+				batch = append(batch[1:], batch[0])
+			}
 			runTestCasesForServer(ctx, sc.RefClient, sc.RefServer,
 				serverInstance{protocol: conformancev1.Protocol_PROTOCOL_CONNECT, httpVersion: conformancev1.HTTPVersion_HTTP_VERSION_1, useTLS: sc.TLS, useTLSClientCerts: sc.ClientCerts},
-				cases, creds, clientCreds, srv.starter(), logPrinter, errPrinter, results, cl, nil, false)
+				batch, creds, clientCreds, srv.starter(), logPrinter, errPrinter, results, cl, nil, false)
 			// The batch is complete. As in run(), the report is produced once every batch has returned
 			// and the client has delivered the callbacks of everything it was sent - for the last
 			// batch of a run that is right away. Whatever the batch still does afterwards comes too late.
@@ -999,6 +1011,23 @@ func c11Scenarios(thorough bool) []c11Scenario {
 			for _, ans := range [][]string{nil, {"mismatch"}} {
 				s := base(n)
 				s.RefServer, s.Stderr, s.Answers = true, st, ans
+				out = append(out, s)
+				if n >= 2 && ans == nil {
+					for _, o := range []string{"rev", "rot"} {
+						s.Order = o
+						out = append(out, s)
+					}
+				}
+			}
+		}
+		// feedback for every case of a batch that is not in name order
+		if n >= 2 {
+			for _, o := range []string{"rev", "rot"} {
+				s := base(n)
+				s.RefServer, s.Order = true, o
+				for i := 0; i < n; i++ {
+					s.Stderr = append(s.Stderr, fmt.Sprintf("s/c%d: feedback %d\n", i, i))
+				}
 				out = append(out, s)
 			}
 		}
